@@ -23,7 +23,9 @@ def worker(k):
         checks = m["detection"]["command"].split("patch.diff", 1)[1].split("(")[0].split()
         env = dict(os.environ, SEEDWT=wt)
         t0 = time.time()
-        r = subprocess.run(["/verif/seedtest.sh", d + "/patch.diff"] + checks, stdout=subprocess.PIPE, stderr=subprocess.STDOUT, text=True, env=env)
+        # patch-head.diff: the same change ported to /repo HEAD where later fix: commits touched its context lines
+        patch = d + "/patch-head.diff" if os.path.exists(d + "/patch-head.diff") else d + "/patch.diff"
+        r = subprocess.run(["/verif/seedtest.sh", patch] + checks, stdout=subprocess.PIPE, stderr=subprocess.STDOUT, text=True, env=env)
         out = r.stdout
         base = head
         if "does not apply" in out:
